@@ -932,6 +932,11 @@ func (p *Prog) IndexStoreOn(re string) IM {
 	}
 }
 
+// pureAccessors: functions whose result depends only on their (value) arguments.
+var pureAccessors = map[string]bool{
+	"ltx.(Pos).IsZero": true,
+}
+
 var litCmpRx = regexp.MustCompile(`^\(("(?:[^"\\]|\\.)*"|-?\d+) == ("(?:[^"\\]|\\.)*"|-?\d+)\)$`)
 
 func sameOps(a, b []opGen) bool {
@@ -962,6 +967,42 @@ func sameOps(a, b []opGen) bool {
 // constants) or loads of package-level variables that are never stored to
 // outside their package initialiser (sentinel errors). nil otherwise.
 func (p *Prog) stableOperands(cond ssa.Value, seen map[*ssa.BasicBlock]int) []opGen {
+	// a call of a function known to be pure (value receiver, no side effects), with
+	// parameters or constants as arguments, yields the same answer every time
+	// it is evaluated in the function: two such calls are one fact
+	if call, ok := cond.(*ssa.Call); ok {
+		fn := call.Call.StaticCallee()
+		if fn == nil || !pureAccessors[p.CalleeName(&call.Call)] {
+			return nil
+		}
+		out := []opGen{{fn, 0}}
+		for _, a := range call.Call.Args {
+			// a struct parameter is spilled to a local cell; a load of a cell that is
+			// only ever stored the parameter is the parameter
+			if u, ok := a.(*ssa.UnOp); ok && u.Op == token.MUL {
+				if al, ok := u.X.(*ssa.Alloc); ok && al.Referrers() != nil {
+					var src ssa.Value
+					n := 0
+					for _, r := range *al.Referrers() {
+						if st, ok := r.(*ssa.Store); ok && st.Addr == ssa.Value(al) {
+							n++
+							src = st.Val
+						}
+					}
+					if par, ok := src.(*ssa.Parameter); ok && n == 1 {
+						a = par
+					}
+				}
+			}
+			switch a.(type) {
+			case *ssa.Const, *ssa.Parameter:
+				out = append(out, opGen{a, 0})
+			default:
+				return nil
+			}
+		}
+		return out
+	}
 	b, ok := cond.(*ssa.BinOp)
 	if !ok {
 		return nil
